@@ -1206,6 +1206,12 @@ def gt_presence(ctx: Ctx) -> RuleResult:
                         # an empty exclusion excludes nothing, exactly like an absent one: truthiness is equivalent here
                         n += 1
                         r.ob(True, {"truthiness test (equivalent for exclusions)": norm_src(t), "in": f.short})
+                    elif d in names and isinstance(node, ast.If) and not node.orelse and len(node.body) == 1 \
+                            and isinstance(node.body[0], ast.Assign) and dotted(node.body[0].targets[0]) == d \
+                            and d in {dotted(x) for x in ast.walk(node.body[0].value) if isinstance(x, (ast.Name, ast.Attribute))}:
+                        # `if sel: sel = normalise(sel)`: an empty selection stays empty - truthiness is equivalent here
+                        n += 1
+                        r.ob(True, {"truthiness test (normalisation only)": norm_src(t), "in": f.short})
                     elif d in names:
                         n += 1
                         r.ob(False, {"truthiness test": norm_src(t), "in": f.short})
